@@ -35,6 +35,8 @@ struct World {
     live_desers: usize,
     next_doc: u32,
     mailboxes: Vec<Vec<Item>>,
+    /// values published for shared (read-only) use by every thread (`Value: Sync`)
+    board: Vec<Arc<Item>>,
     baseline: i64,
     next_key: u32,
 }
@@ -135,6 +137,22 @@ fn read_item(it: &Item, what: &str) -> Result<(), Violation> {
     libcall("read", || oracle::check_value(&it.v, &it.m, what))?
 }
 
+/// Give up one handle of a shared item; whoever holds the last one drops the value (on its thread).
+fn drop_shared(sh: Arc<Item>) -> Result<(), Violation> {
+    match Arc::try_unwrap(sh) {
+        Ok(Item { v, origins, .. }) => {
+            trace::bump(C::value_dropped_foreign);
+            libcall("drop shared value", move || drop(v))?;
+            release(&origins);
+            Ok(())
+        }
+        Err(still_shared) => {
+            drop(still_shared);
+            Ok(())
+        }
+    }
+}
+
 struct Stream {
     stream: StreamDeserializer<'static, Value, Read<'static>>,
     _src: Arc<String>,
@@ -170,7 +188,7 @@ fn thread_body(t: usize, nthreads: usize, nops: u32, cfg: GenCfg, errs: Arc<Mute
     let r = (|| -> Result<(), Violation> {
         for step in 0..nops {
             sched::yield_point(100);
-            let op = draw(20);
+            let op = draw(24);
             let what = format!("T{} step {} op {}", t, step, op);
             match op {
                 // ---- parse by several routes
@@ -565,6 +583,46 @@ fn thread_body(t: usize, nthreads: usize, nops: u32, cfg: GenCfg, errs: Arc<Mute
                         bag.push(it);
                     }
                 }
+                // ---- shared board: one Value read and cloned from by several threads at once
+                20 => {
+                    if !bag.is_empty() && nthreads > 1 {
+                        let i = draw(bag.len() as u32) as usize;
+                        let it = bag.swap_remove(i);
+                        tr!("T{} publish #{} on the shared board", t, i);
+                        trace::nontrivial();
+                        with_world(|w| w.board.push(Arc::new(it)));
+                    }
+                }
+                21 | 22 => {
+                    let shared: Option<Arc<Item>> = with_world(|w| if w.board.is_empty() { None } else { Some(w.board[draw(w.board.len() as u32) as usize].clone()) });
+                    if let Some(sh) = shared {
+                        if op == 21 || sh.big {
+                            tr!("T{} read a shared value", t);
+                            read_item(&sh, &what)?;
+                        } else {
+                            let paths = gen::all_paths(&sh.m);
+                            let p = pick(&paths).clone();
+                            tr!("T{} clone subtree {} of a shared value", t, gen::path_str(&p));
+                            acquire(&sh.origins);
+                            let sub = libcall("shared pointer+clone", || if p.is_empty() { Some(sh.v.clone()) } else { sh.v.pointer(&gen::to_pointer(&p)).cloned() })?;
+                            let Some(v) = sub else {
+                                return Err(Violation::new("mismatch/pointer", format!("{}: pointer {} into a shared value is None", what, gen::path_str(&p))));
+                            };
+                            trace::bump(C::dom_clones);
+                            bag.push(Item { v, m: gen::at_path(&sh.m, &p).unwrap().clone(), origins: sh.origins.clone(), big: false });
+                        }
+                        // the temporary handle goes away without touching the value (it is not the last one
+                        // unless the board entry was removed meanwhile; then it is dropped here, on this thread)
+                        drop_shared(sh)?;
+                    }
+                }
+                23 => {
+                    let taken: Option<Arc<Item>> = with_world(|w| if w.board.is_empty() { None } else { Some(w.board.swap_remove(draw(w.board.len() as u32) as usize)) });
+                    if let Some(sh) = taken {
+                        tr!("T{} remove a shared value from the board", t);
+                        drop_shared(sh)?;
+                    }
+                }
                 // ---- drop
                 _ => {
                     if !bag.is_empty() {
@@ -647,6 +705,7 @@ pub fn run() -> SimResult {
         live_desers: 0,
         next_doc: 0,
         mailboxes: (0..nthreads).map(|_| Vec::new()).collect(),
+        board: Vec::new(),
         baseline,
         next_key: 0,
     });
@@ -659,6 +718,7 @@ pub fn run() -> SimResult {
         progs.push(Box::new(move || thread_body(t, nthreads, nops, cfg, errs, allow_big)));
     }
     tr!("scenario arena threads={} big={}", nthreads, allow_big);
+    sched::set_step_hint(300);
     let results = sched::run_threads(progs);
     let mut first: Option<Violation> = None;
     for (i, r) in results.iter().enumerate() {
@@ -676,6 +736,17 @@ pub fn run() -> SimResult {
         first = errs.lock().unwrap_or_else(|e| e.into_inner()).drain(..).next();
     }
     // values still in mailboxes: read, then drop on the driver (a foreign thread for all of them)
+    let board: Vec<Arc<Item>> = with_world(|w| std::mem::take(&mut w.board));
+    for sh in board {
+        if first.is_none() {
+            if let Err(v) = read_item(&sh, "driver: value left on the shared board") {
+                first = Some(v);
+            }
+        }
+        if let (None, Err(v)) = (&first, drop_shared(sh)) {
+            first = Some(v);
+        }
+    }
     let leftovers: Vec<Item> = with_world(|w| w.mailboxes.iter_mut().flat_map(|m| m.drain(..)).collect());
     for it in leftovers {
         if first.is_none() {
